@@ -222,4 +222,29 @@ def FileHeader.WF (h : FileHeader) : Prop :=
 def File.WF (f : File) : Prop :=
   f.hdr.WF ∧ f.hdr.numCdrs = f.cdrs.length ∧ ∀ c ∈ f.cdrs, c.WF
 
+/-! ### the destination file
+
+  `CDRFile.Encoding` writes the octets to a named file.  What is on disk afterwards depends on how the file is
+  opened when it already exists (os.WriteFile / os.Create / O_TRUNC discard the old content; a plain
+  O_WRONLY|O_CREATE writes over its beginning; O_APPEND writes behind it).  Which of these the code does is
+  regenerated from the source into `Gen/CdrFileFacts.lean`. -/
+
+structure WriteMode where
+  truncates : Bool
+  appends : Bool
+deriving DecidableEq, Repr
+
+/-- the file after `new` was written to a file holding `old` (a missing file holds nothing) -/
+def writeOver (m : WriteMode) (old new : Bytes) : Bytes :=
+  if m.truncates then new
+  else if m.appends then old ++ new
+  else new ++ old.drop new.length
+
+/-- the destination after `Encoding`, given what it held before (`none`: no such file) -/
+def encodingOnto (m : WriteMode) (old : Option Bytes) (f : File) : Bytes :=
+  writeOver m (old.getD []) (encodeFile f)
+
+/-- the pre-existing content the `cdrfile over` operation puts in place: n octets, octet j = fill + 7 j -/
+def patternBytes (n fill : Nat) : Bytes := (List.range n).map fun j => (fill + j * 7) % 256
+
 end Chf.CdrFile
